@@ -248,6 +248,9 @@ def run_history(ctx, text, ops, info, reqs_out):
                          f"scope lookup {op[1]!r} succeeded although the scope mapping lists {r['scope_names']!r}")
                 continue
         if op[0] in ("rmcli", "setcli"):
+            if r["res"] != "ok" and r["after"] != r["before"]:
+                ctx.fail({"clause": "failed-op-mutated", "op": op[0]}, inp,
+                         f"failed {op!r} changed the document: {r['before']!r} -> {r['after']!r}")
             continue  # what set/rm do to the text is C05's; here they only prepare the state the mapping is asked about
         if op[0] == "topscopeset":
             want = {k: (str(v) if isinstance(v, int) else '"' + v + '"') for k, v in op[2].items()}
